@@ -10,6 +10,7 @@ import "sync"
 // result is a function of its arguments. Native side (replay): the two calls run concurrently under the race
 // detector and each result is compared with its solo result.
 func HarnessC15Concurrent() {
+	c16ErrorPage = "err"
 	tpl := c16Tree()
 	s := string([]byte{vByte("s")})
 	d1 := vInt64("d1")
